@@ -334,7 +334,7 @@ func runInner(c Case) (res vt.Result, fail *vt.Fail) {
 	repo.Client = &http.Client{Transport: reg}
 	repo.SkipReferrersGC = c.SkipGC
 
-	limbo := map[int]bool{} // a Delete reported an index-delete error: the index no longer lists the manifest, the manifest itself was not deleted
+	limbo := map[int]bool{}   // a Delete reported an index-delete error: the index no longer lists the manifest, the manifest itself was not deleted
 	touched := map[int]bool{} // subjects whose index this Repository has rewritten
 	pushFailed := map[int]bool{}
 	deleteFailed := map[int]bool{}
@@ -590,7 +590,10 @@ func short(xs []string) []string {
 }
 
 func TestMain(m *testing.M) {
-	vt.Main(m, "C14", vt.NewLeg("main", 600, 2500, 16, genCase, runCase))
+	vt.Main(m, "C14",
+		vt.NewLeg("main", 600, 2500, 16, genCase, runCase),
+		vt.NewLeg("capability", 150, 600, 2, genCap, runCap),
+	)
 }
 
 func TestLegs(t *testing.T)   { vt.TestLegs(t) }
